@@ -29,6 +29,10 @@ pub struct HelloSpec {
     /// 2 = as 0, plus a foreign-namespace element that is merely *named* capability (and contains
     /// a base-version URI), which is no capability of the hello
     pub binding: u8,
+    /// what stands between </hello> and the delimiter: 0 nothing, 1 white space, 2 a comment (both
+    /// leave the hello well-formed); 3 text, 4 a second <hello> with other contents, 5 an element
+    /// that is never closed (none of these is a well-formed hello message)
+    pub tail: u8,
 }
 
 impl HelloSpec {
@@ -66,6 +70,14 @@ impl HelloSpec {
             s.push_str(&sids);
         }
         s.push_str(&format!("</{p}hello>"));
+        match self.tail {
+            1 => s.push_str("\n  \n"),
+            2 => s.push_str("<!-- end of hello -->"),
+            3 => s.push_str("junk after the document element"),
+            4 => s.push_str(&format!("<hello xmlns=\"{BASE_NS}\"><capabilities><capability>urn:ietf:params:netconf:base:1.1</capability></capabilities><session-id>0</session-id></hello>")),
+            5 => s.push_str("<session-id>9"),
+            _ => {}
+        }
         s.push_str(MARKER);
         s.into_bytes()
     }
@@ -184,7 +196,7 @@ fn gen_spec(r: &mut Prng) -> HelloSpec {
         1 => vec![gen_sid(r), gen_sid(r)],
         _ => vec![gen_sid(r)],
     };
-    HelloSpec { caps, session_ids, prefixed: r.chance(1, 3), wrong_ns: r.chance(1, 12), sid_first: r.chance(1, 4), binding: match r.below(8) { 0 => 1, 1 => 2, _ => 0 } }
+    HelloSpec { caps, session_ids, prefixed: r.chance(1, 3), wrong_ns: r.chance(1, 12), sid_first: r.chance(1, 4), binding: match r.below(8) { 0 => 1, 1 => 2, _ => 0 }, tail: if r.chance(1, 8) { r.range(1, 5) as u8 } else { 0 } }
 }
 
 /// base versions the client itself advertised, read off the wire
@@ -294,7 +306,10 @@ pub fn run(cfg: &Cfg) -> i32 {
         }).collect();
         let common: Vec<&&str> = client_v.intersection(&server_v).collect();
         let sid = spec.valid_session_id();
-        let expect = !spec.wrong_ns && sid.is_some() && !common.is_empty();
+        let expect = !spec.wrong_ns && sid.is_some() && !common.is_empty() && spec.tail <= 2;
+        if spec.tail > 0 {
+            rep.count(&format!("hellos_with_something_behind_the_document_element:{}", ["", "white-space", "comment", "text", "second-hello", "unclosed-element"][spec.tail as usize]));
+        }
         rep.count(if expect { "expected_established" } else { "expected_refused" });
         let sid_class = match spec.session_ids.len() {
             0 => "missing".to_string(),
@@ -313,7 +328,7 @@ pub fn run(cfg: &Cfg) -> i32 {
             rep.count("hello_with_both_bindings_of_the_base_namespace");
         }
         if a_ok != expect && !foreign_child_refused {
-            let why = if spec.wrong_ns { "wrong-namespace".to_string() } else if sid.is_none() { format!("session-id-{sid_class}") } else if common.is_empty() { "no-common-version".into() } else { format!("valid-hello(session-id {sid_class})") };
+            let why = if spec.tail > 2 && a_ok { format!("not-well-formed({}-behind-the-document-element)", ["", "", "", "text", "second-hello", "unclosed-element"][spec.tail as usize]) } else if spec.wrong_ns { "wrong-namespace".to_string() } else if sid.is_none() { format!("session-id-{sid_class}") } else if common.is_empty() { "no-common-version".into() } else { format!("valid-hello(session-id {sid_class})") };
             rep.violation(
                 &format!("establish:{}:{why}", if a_ok { "accepted" } else { "refused" }),
                 &format!("expected established={expect}, got {:?}", match &a { Established::Err(e) => e.clone(), _ => "Ok".into() }),
